@@ -1002,7 +1002,9 @@ where
     /// # Errors
     /// Fails because of any IO errors.
     pub async fn fsyncdata(&self) -> IOResult<()> {
-        self.inner.fsyncdata().await
+        // Explicit call should sync unconditionally (background sync is skipped when there are not enough
+        // dirty bytes or when another background sync is in progress)
+        self.inner.safe.read().await.fsyncdata().await
     }
 
     /// Force updates active blob on new one to dump index of old one on disk and free RAM.
